@@ -476,6 +476,108 @@ Proof. reflexivity. Qed.
 (* fuel: the loop never runs out of it -- every iteration either pops an entry or parses a file not parsed before *)
 (* (not needed for the invariance theorems, which hold for the out-of-fuel result as well) *)
 
+(* ------------------------------------------------------------------ the work-list loop never runs out of fuel *)
+(* measure: imports of the files not parsed yet (counted per project entry whose path is not in the code map) *)
+Definition unparsed_imports (p : project) (st : parse_state) : nat :=
+  fold_right (fun fs n => (if already_imported st (fst fs) then 0 else count_imports (snd fs)) + n) 0 p.
+
+Lemma parse_events_to_import_len : forall evs base counter scopes ti errs,
+  length (snd (fst (parse_events base evs counter scopes ti errs))) <= length ti + count_imports (mkSource 0 evs).
+Proof.
+  induction evs as [|e t IH]; intros; cbn [parse_events].
+  - cbn. lia.
+  - destruct e; unfold count_imports in *; cbn [src_events filter length] in *.
+    + specialize (IH base (S counter) (S counter :: scopes) ti errs). lia.
+    + specialize (IH base (S counter) (S counter :: scopes) (map_insert ti target (shift base sp)) errs).
+      assert (length (map_insert ti target (shift base sp)) <= S (length ti)).
+      { clear. induction ti as [|[k v] t IHt]; cbn; [lia|]. destruct (path_eqb k target); cbn; lia. }
+      cbn. lia.
+    + specialize (IH base counter scopes ti (ParseError (shift base sp) :: errs)). lia.
+Qed.
+
+Lemma push_len : forall (p : project) l acc,
+  length (fst (fold_left (fun (acc : list path * list diag) (e : path * span) =>
+                 match find_file p (fst e) with
+                 | Some _ => (fst e :: fst acc, snd acc)
+                 | None => (fst acc, snd acc ++ [FileNotFound (fst e) (snd e)])
+                 end) l acc)) <= length l + length (fst acc).
+Proof.
+  induction l as [|e t IH]; intros acc; cbn [fold_left]; [cbn; lia|].
+  destruct (find_file p (fst e)); etransitivity; [apply IH | cbn; lia | apply IH | cbn; lia].
+Qed.
+
+Lemma already_imported_app : forall st f pf c e er,
+  already_imported (mkPState c e (ps_files st ++ [pf]) er) f = already_imported st f || path_eqb (pf_path pf) f.
+Proof. intros. unfold already_imported. cbn. rewrite existsb_app. cbn. rewrite orb_false_r. reflexivity. Qed.
+
+Lemma path_eqb_eq : forall a b, path_eqb a b = true <-> a = b.
+Proof. apply (go_eqb _ _ good_path). Qed.
+
+Lemma unparsed_after : forall p st f src c e er scopes base,
+  find_file p f = Some src -> already_imported st f = false ->
+  unparsed_imports p (mkPState c e (ps_files st ++ [mkParsed f base scopes]) er) + count_imports src <= unparsed_imports p st.
+Proof.
+  induction p as [|[g s] t IH]; intros st f src c e er scopes base F A; cbn in F; [discriminate|].
+  unfold unparsed_imports. cbn [fold_right fst snd]. fold (unparsed_imports t st).
+  fold (unparsed_imports t (mkPState c e (ps_files st ++ [mkParsed f base scopes]) er)).
+  rewrite (already_imported_app st g (mkParsed f base scopes) c e er). cbn [pf_path].
+  destruct (path_eqb g f) eqn:E.
+  - apply path_eqb_eq in E. subst g. inversion F; subst s. rewrite A.
+    assert (path_eqb f f = true) by (apply path_eqb_eq; reflexivity). rewrite H. cbn [orb].
+    assert (M : unparsed_imports t (mkPState c e (ps_files st ++ [mkParsed f base scopes]) er) <= unparsed_imports t st).
+    { clear. induction t as [|[g s] t IHt]; [cbn; lia|]. unfold unparsed_imports. cbn [fold_right fst snd].
+      fold (unparsed_imports t st). fold (unparsed_imports t (mkPState c e (ps_files st ++ [mkParsed f base scopes]) er)).
+      rewrite (already_imported_app st g (mkParsed f base scopes) c e er).
+      destruct (already_imported st g); cbn [orb]; [lia|]. destruct (path_eqb _ g); lia. }
+    lia.
+  - assert (path_eqb f g = false).
+    { destruct (path_eqb f g) eqn:E2; [|reflexivity]. apply path_eqb_eq in E2. subst. 
+      assert (path_eqb g g = true) by (apply path_eqb_eq; reflexivity). congruence. }
+    rewrite H. rewrite orb_false_r. specialize (IH st f src c e er scopes base F A). destruct (already_imported st g); lia.
+Qed.
+
+Lemma parse_loop_fuel : forall k pi, valid pi -> forall p fuel iter work st,
+  length work + unparsed_imports p st <= fuel -> parse_loop k pi p fuel iter work st <> ParseOutOfFuel.
+Proof.
+  intros k pi V p. induction fuel as [|fuel IH]; intros iter work st H; destruct work as [|f rest]; cbn [parse_loop]; try discriminate.
+  - cbn in H. lia.
+  - destruct (already_imported st f) eqn:A.
+    + apply IH. cbn in H. lia.
+    + destruct (find_file p f) as [src|] eqn:F; [|discriminate].
+      destruct (parse_events _ _ _ _ _ _) as [[[counter scopes] to_import] errs] eqn:PE.
+      destruct (fold_left _ _ _) as [work' errs'] eqn:FL. apply IH.
+      pose proof (push_len p (iterate k pi [4; iter] to_import)
+                    (rest, ps_errors (mkPState counter (ps_end st + 1 + src_len src)
+                              (ps_files st ++ [mkParsed f (ps_end st + 1)%N (rev scopes)]) (ps_errors st ++ rev errs)))) as PL.
+      rewrite FL in PL. cbn [fst snd] in PL.
+      assert (LI : length (iterate k pi [4; iter] to_import) = length to_import).
+      { destruct k; cbn [iterate]; [apply Permutation_length, V | reflexivity]. }
+      pose proof (parse_events_to_import_len (src_events src) (ps_end st + 1)%N (ps_counter st) [] [] []) as TL.
+      rewrite PE in TL. cbn [fst snd length] in TL.
+      assert (CI : count_imports (mkSource 0 (src_events src)) = count_imports src) by reflexivity.
+      pose proof (unparsed_after p st f src counter (ps_end st + 1 + src_len src)%N errs' (rev scopes) (ps_end st + 1)%N F A) as UA.
+      cbn [ps_counter ps_end ps_files]. cbn [length] in H. lia.
+Qed.
+
+Lemma unparsed_initial : forall p, unparsed_imports p (mkPState 0 0 [] []) = fold_right (fun fs n => count_imports (snd fs) + n) 0 p.
+Proof. induction p as [|[g s] t IH]; [reflexivity|]. unfold unparsed_imports in *. cbn [fold_right fst snd]. rewrite IH. reflexivity. Qed.
+
+Theorem parse_never_out_of_fuel : forall k pi, valid pi -> forall p main, parse k pi p main <> ParseOutOfFuel.
+Proof.
+  intros. unfold parse. apply parse_loop_fuel; [assumption|]. rewrite unparsed_initial. unfold parse_fuel. cbn. lia.
+Qed.
+
+Theorem build_never_out_of_fuel : forall sc stem codegen pi, valid pi -> forall p main,
+  build sc stem codegen pi p main <> BuildOutOfFuel.
+Proof.
+  intros sc stem codegen pi V p main. unfold build.
+  pose proof (parse_never_out_of_fuel (sc_to_import sc) pi V p main) as N.
+  destruct (parse (sc_to_import sc) pi p main) as [st|]; [|contradiction].
+  destruct (ps_errors st); [|discriminate].
+  destruct (cg_errors _); [|discriminate].
+  destruct (cg_undefined _); discriminate.
+Qed.
+
 (* ------------------------------------------------------------------ import *: export loop *)
 Lemma good_child_key : good_order (pair_eqb Nat.eqb name_eqb) (pair_leb Nat.eqb Nat.leb name_leb).
 Proof. apply good_pair; [apply good_nat | apply good_name]. Qed.
@@ -483,16 +585,21 @@ Proof. apply good_pair; [apply good_nat | apply good_name]. Qed.
 Lemma child_key_inj : forall a b, child_key a = child_key b -> a = b.
 Proof. intros [a1 a2] [b1 b2]; unfold child_key; cbn. intro E. inversion E. reflexivity. Qed.
 
-Theorem import_all_invariant : forall pi pi', valid pi -> valid pi' ->
-  forall call call' children existing sp,
-  import_all IterSortedByKey pi call children existing sp = import_all IterSortedByKey pi' call' children existing sp.
+Theorem children_order_invariant : forall pi pi', valid pi -> valid pi' ->
+  forall call call' children,
+  children_order IterSortedByKey pi call children = children_order IterSortedByKey pi' call' children.
 Proof.
-  intros. unfold import_all. f_equal.
+  intros. unfold children_order.
   destruct good_child_key as [_ Ht Htr Ha].
   apply (sort_by_injective_key_invariant child_key (pair_leb Nat.eqb Nat.leb name_leb) Ht Htr Ha).
   - eapply Permutation_trans; [apply H | apply Permutation_sym, H0].
   - intros. apply child_key_inj. assumption.
 Qed.
+
+Theorem import_all_invariant : forall pi pi', valid pi -> valid pi' ->
+  forall call call' children existing sp,
+  import_all IterSortedByKey pi call children existing sp = import_all IterSortedByKey pi' call' children existing sp.
+Proof. intros. unfold import_all. f_equal. apply children_order_invariant; assumption. Qed.
 
 Theorem import_all_hashed_refuted :
   exists pi pi' children existing sp, valid pi /\ valid pi' /\
@@ -513,18 +620,27 @@ Qed.
 
 (* ------------------------------------------------------------------ the whole build *)
 Definition sites_reproducible (sc : site_config) : Prop :=
-  sc_to_import sc = Ordered /\ sc_undef_key sc = KeyNameSpan /\ sc_vice_sorted sc = true /\ sc_listing sc = IterSortedByKey.
+  sc_to_import sc = Ordered /\ sc_undef_key sc = KeyNameSpan /\ sc_vice_sorted sc = true /\ sc_listing sc = IterSortedByKey /\
+  sc_import_all sc = IterSortedByKey.
+
+(* the code generator may use its callback in any way, but only through its values *)
+Definition uses_callback_extensionally (codegen : children_iter -> parse_state -> codegen_result) : Prop :=
+  forall f f' : children_iter, (forall call ch, f call ch = f' call ch) -> forall st, codegen f st = codegen f' st.
 
 Theorem build_invariant : forall sc, sites_reproducible sc ->
-  forall stem codegen pi pi', valid pi -> valid pi' ->
+  forall stem codegen, uses_callback_extensionally codegen ->
+  forall pi pi', valid pi -> valid pi' ->
   forall p main, build sc stem codegen pi p main = build sc stem codegen pi' p main.
 Proof.
-  intros sc (E1 & E2 & E3 & E4) stem codegen pi pi' V V' p main. unfold build. rewrite E1, E2, E3, E4.
+  intros sc (E1 & E2 & E3 & E4 & E5) stem codegen X pi pi' V V' p main. unfold build. rewrite E1, E2, E3, E4, E5.
   rewrite (parse_ordered_invariant pi pi').
   destruct (parse Ordered pi' p main) as [st|]; [|reflexivity].
   destruct (ps_errors st); [|reflexivity].
-  destruct (cg_errors (codegen st)); [|reflexivity].
-  destruct (cg_undefined (codegen st)) eqn:U.
+  rewrite (X (children_order IterSortedByKey pi) (children_order IterSortedByKey pi')
+             (fun call ch => children_order_invariant pi pi' V V' call call ch) st).
+  set (cg := codegen (children_order IterSortedByKey pi') st).
+  destruct (cg_errors cg); [|reflexivity].
+  destruct (cg_undefined cg) eqn:U.
   - f_equal; [apply vice_sort_invariant | apply listing_invariant]; assumption.
   - rewrite <- U. rewrite (report_undefined_invariant pi pi' V V'). reflexivity.
 Qed.
